@@ -11,7 +11,7 @@
 //! deallocated dynamic object"), plus linearisability against the array model.
 use crate::cover;
 use crate::nd::{any, assume};
-use roto::verif_api::{list_verif, RotoOption, YIELD_HOOK};
+use roto::verif_api::{list_verif, sched, RotoOption, YIELD_HOOK};
 use roto::List;
 
 /// schedule points at which the running operation itself holds a list lock
@@ -35,6 +35,10 @@ const PUSHED: [u64; 4] = [0x1111, 0x2222, 0x3333, 0x4444];
 fn fire(site: u32) -> Option<&'static List<u64>> {
     unsafe {
         if FIRED_AT != 0 || LOCK_HELD_SITES.contains(&site) || (ONLY_SITE != 0 && site != ONLY_SITE) {
+            return None;
+        }
+        // the release points of hook H7 (site >= RELEASE_BASE) are used only by the harnesses that name one
+        if site >= sched::RELEASE_BASE && ONLY_SITE != site {
             return None;
         }
         let fire: bool = any();
@@ -101,6 +105,7 @@ fn setup_at(other: fn(u32), n_init: usize, only_site: u32) -> (List<u64>, [u64; 
         FIRED_AT = 0;
         ONLY_SITE = only_site;
         SHARED = Some(l.clone());
+        sched::reset();
         YIELD_HOOK = Some(other);
     }
     (l, m)
@@ -160,6 +165,23 @@ macro_rules! ffi_get_vs_push4 {
     };
 }
 ffi_get_vs_push4!(c16_ffi_get_vs_push4_realloc_site11, 11);
+
+/// `to_vec()` on a 1-element list while another thread pushes 4 elements (relocation 4 -> 8) at the schedule point
+/// that hook H7 raises *after the release* of `to_vec`'s lock: if the elements are cloned after the lock is gone, the
+/// clone reads the old buffer ("dereference failure: deallocated dynamic object"); with the lock held across the
+/// clone the point is reached only when `to_vec` is complete. The result is the list before the pushes.
+#[cfg_attr(kani, kani::proof)]
+#[cfg_attr(kani, kani::unwind(8))]
+#[cfg_attr(kani, kani::stub(std::sync::Mutex::lock, crate::stubs::mutex_lock_stub))]
+pub fn c16_to_vec_vs_push4_after_release() {
+    let (l, m) = setup_at(other_push4, 1, sched::RELEASE_BASE + 1);
+    let v = l.to_vec();
+    let at = done();
+    assert!(v.len() == 1 && v[0] == m[0], "to_vec returned something else than the list at its linearisation point");
+    cover!(at == sched::RELEASE_BASE + 1, "preempted_after_release");
+    std::mem::forget(v);
+    teardown(l);
+}
 
 /// `get(i)` vs one push without reallocation: linearisable (index == old
 /// length sees the pushed element iff the push's critical section came first).
@@ -358,6 +380,7 @@ big_get_vs_push!(c16_big_get_vs_push_realloc, 1, false);
 big_get_vs_push!(c16_big_ffi_get_vs_push_realloc, 11, true);
 
 crate::list![
+    c16_to_vec_vs_push4_after_release,
     c16_len_vs_push1_linearizable,
     c16_push_vs_push1_linearizable,
     c16_big_get_vs_push_realloc,
